@@ -56,8 +56,7 @@ manifest = {
     'not_applicable': na,
     'notes': 'All checks run under /venv/bin/python against the /repo working tree (sys.path[0]=/repo). VERIF_SEED selects the Hypothesis seeds. Exit 2 + HARNESS-ERROR = harness problem, never a verdict.',
 }
-if not na:
-    del manifest['not_applicable']
+# an empty list is kept on purpose: it states that all 20 properties are claimed
 json.dump(manifest, open(os.path.join(VERIF, 'MANIFEST.json'), 'w'), indent=1)
 import jsonschema
 jsonschema.validate(manifest, json.load(open('/root/.vp/MANIFEST.schema.json')))
